@@ -32,6 +32,9 @@ LEVEL_TEXT = (
 )
 LEVEL_NOTE = "Trusted: vpchk/refs (self-tested against published vectors), CPython hashlib/hmac, libxcrypt, pyca bcrypt, Django, Hypothesis."
 TECHNIQUE = "Hypothesis differential testing against independent reference implementations + exhaustive length sweeps"
+#: thorough tier: seed-dependent tasks are repeated under this many derived seeds (run.py); the listed task functions enumerate fixed domains
+THOROUGH_REPS = 1
+DETERMINISTIC_FNS = ('t_des_salts',)
 
 FORCE_BUILTIN = ["md5_crypt", "sha1_crypt", "sha256_crypt", "sha512_crypt", "des_crypt", "bsdi_crypt"]
 
